@@ -69,7 +69,7 @@ bool is_private_or_reserved_ipv4(const std::array<std::uint8_t, 4>& ip) {
     if (ip[0] == 192 && ip[1] == 0 && ip[2] == 2) return true;     // TEST-NET-1
     if (ip[0] == 198 && ip[1] == 51 && ip[2] == 100) return true;  // TEST-NET-2
     if (ip[0] == 203 && ip[1] == 0 && ip[2] == 113) return true;   // TEST-NET-3
-    if (ip[0] == 198 && ip[1] == 18) return true;                  // Benchmarking
+    if (ip[0] == 198 && (ip[1] == 18 || ip[1] == 19)) return true;  // Benchmarking (198.18.0.0/15)
     if (ip[0] >= 224) return true;                                 // Multicast/reserved
     return false;
 }
@@ -98,6 +98,15 @@ bool is_private_or_reserved_ipv6(const std::string& host) {
     if (normalized == "::" || normalized == "::1") {
         return true;
     }
+    // IPv4-mapped (::ffff:a.b.c.d) and IPv4-compatible (::a.b.c.d) forms carry an IPv4 address: classify that.
+    for (const std::string_view prefix : {std::string_view{"::ffff:"}, std::string_view{"::"}}) {
+        if (normalized.rfind(prefix, 0) == 0) {
+            std::array<std::uint8_t, 4> embedded{};
+            if (parse_ipv4(normalized.substr(prefix.size()), embedded)) {
+                return is_private_or_reserved_ipv4(embedded);
+            }
+        }
+    }
     if (normalized.rfind("fc", 0) == 0 || normalized.rfind("fd", 0) == 0) {
         return true;  // Unique local addresses
     }
@@ -113,6 +122,8 @@ bool is_private_or_reserved_ipv6(const std::string& host) {
     }
     return false;
 }
+
+}  // namespace
 
 bool is_private_or_reserved_host(const std::string& host) {
     if (host.empty()) {
@@ -138,8 +149,6 @@ bool is_private_or_reserved_host(const std::string& host) {
     }
     return false;
 }
-
-}  // namespace
 
 AdvertiseDiscoveryResult discover_control_advertise_candidates(const Config& config) {
     AdvertiseDiscoveryResult result;
